@@ -29,6 +29,7 @@ import (
 	"go/ast"
 	"go/token"
 	"go/types"
+	"regexp"
 	"sort"
 	"strings"
 )
@@ -435,6 +436,8 @@ func (t *T) genGobW() string {
 	fmt.Fprintf(&sb, "Definition gobw_funcs : list (bytes * option kind * list gwentry) := [\n  %s].\n\n", strings.Join(names, ";\n  "))
 	sb.WriteString(t.genGobLeaf(true))
 	sb.WriteString(t.genGobLeafLayouts())
+	sb.WriteString(t.genGobCodecs(true))
+	sb.WriteString(t.genGobEncItem())
 	sb.WriteString(t.gobMethods("GobEncode", "gob_enc_methods"))
 	sb.WriteString(t.gobAliases("MarshalBinary", "gob_marshal_binary"))
 	return sb.String()
@@ -564,6 +567,8 @@ func (t *T) genGobR() string {
 	fmt.Fprintf(&sb, "Definition gobr_funcs : list (bytes * option kind * list grentry) := [\n  %s].\n\n", strings.Join(names, ";\n  "))
 	sb.WriteString(t.genGobLeaf(false))
 	sb.WriteString(t.genGobSniff())
+	sb.WriteString(t.genGobCodecs(false))
+	sb.WriteString(t.genGobTyperPresets())
 	sb.WriteString(t.gobMethods("GobDecode", "gob_dec_methods"))
 	sb.WriteString(t.gobAliases("UnmarshalBinary", "gob_unmarshal_binary"))
 	return sb.String()
@@ -932,4 +937,655 @@ func (t *T) gobSniffObjectBlock(s ast.Stmt) bool {
 		return false
 	}
 	return squash(t.src(b[3])) == "return it, err"
+}
+
+// ---------------------------------------------------------------- one-call leaf codecs (builder b43)
+//
+// The GobEncode / GobDecode methods of the leaf types and the one-call helper functions of
+// encoding_gob.go / decoding_gob.go, statement by statement (glw / glr of Model/GobTables.v).  Each
+// statement is matched on its printed form (go/printer, white space squashed) with the identifiers bound
+// consistently (receiver, buffer, encoder, local); anything else is an Unrecognised entry - never dropped.
+
+type gobCodecFn struct {
+	recv string // receiver type ("" for a function)
+	name string
+}
+
+var gobWriteCodecs = []gobCodecFn{
+	{"IRI", "GobEncode"}, {"ActivityVocabularyType", "GobEncode"}, {"MimeType", "GobEncode"}, {"LangRef", "GobEncode"},
+	{"Content", "GobEncode"}, {"NaturalLanguageValues", "GobEncode"}, {"LangRefValue", "GobEncode"}, {"IRIs", "GobEncode"},
+	{"", "gobEncodeInt64"}, {"", "gobEncodeUint"}, {"", "gobEncodeFloat64"}, {"", "gobEncodeBool"}, {"", "gobEncodeStringLikeType"},
+}
+
+var gobReadCodecs = []gobCodecFn{
+	{"IRI", "GobDecode"}, {"ActivityVocabularyType", "GobDecode"}, {"MimeType", "GobDecode"}, {"LangRef", "GobDecode"},
+	{"Content", "GobDecode"}, {"NaturalLanguageValues", "GobDecode"}, {"LangRefValue", "GobDecode"}, {"IRIs", "GobDecode"},
+	{"", "gobDecodeInt64"}, {"", "gobDecodeUint"}, {"", "gobDecodeFloat64"}, {"", "gobDecodeBool"}, {"", "gobDecodeDuration"},
+	{"", "gobDecodeNaturalLanguageValues"}, {"", "gobDecodeEndpoints"},
+}
+
+func (t *T) gobFindFn(c gobCodecFn) *ast.FuncDecl {
+	for _, f := range t.pkg.Syntax {
+		for _, d := range f.Decls {
+			fd, ok := d.(*ast.FuncDecl)
+			if !ok || fd.Body == nil || fd.Name.Name != c.name {
+				continue
+			}
+			if c.recv == "" {
+				if fd.Recv == nil {
+					return fd
+				}
+				continue
+			}
+			if fd.Recv != nil && len(fd.Recv.List) == 1 && strings.TrimPrefix(t.src(fd.Recv.List[0].Type), "*") == c.recv {
+				return fd
+			}
+		}
+	}
+	return nil
+}
+
+func (c gobCodecFn) key() string {
+	if c.recv == "" {
+		return c.name
+	}
+	return c.recv + "." + c.name
+}
+
+var (
+	reLwRetEmpty1 = regexp.MustCompile(`^if len\((\w+)\) == 0 \{ return \[\]byte\{\}, nil \}$`)
+	reLwRetEmpty2 = regexp.MustCompile(`^if len\((\w+)\.(\w+)\) == 0 && len\((\w+)\.(\w+)\) == 0 \{ return \[\]byte\{\}, nil \}$`)
+	reLwRetRaw    = regexp.MustCompile(`^return \[\]byte\((\w+)\), nil$`)
+	reLwBufVal    = regexp.MustCompile(`^(\w+) := bytes\.Buffer\{\}$`)
+	reLwBufPtr    = regexp.MustCompile(`^(\w+) := new\(bytes\.Buffer\)$`)
+	reLwEncoder   = regexp.MustCompile(`^(\w+) := gob\.NewEncoder\((&?)(\w+)\)$`)
+	reLwMkKvs1    = regexp.MustCompile(`^(\w+) := make\(\[\]kv, len\((\w+)\)\)$`)
+	reLwMkKvs2    = regexp.MustCompile(`^for (\w+), (\w+) := range (\w+) \{ (\w+)\[(\w+)\] = kv\{K: \[\]byte\((\w+)\.(\w+)\), V: (\w+)\.(\w+)\} \}$`)
+	reLwMkKv      = regexp.MustCompile(`^(\w+) := kv\{ ?K: \[\]byte\((\w+)\.(\w+)\), V: \[\]byte\((\w+)\.(\w+)\),? ?\}$`)
+	reLwMkBl1     = regexp.MustCompile(`^(\w+) := make\(\[\]\[\]byte, 0\)$`)
+	reLwMkBl2     = regexp.MustCompile(`^for _, (\w+) := range (\w+) \{ (\w+) = append\((\w+), \[\]byte\((\w+)\)\) \}$`)
+	reLwEncode    = regexp.MustCompile(`^if err := (\w+)\.Encode\((\w+)\); err != nil \{ return nil, err \}$`)
+	reLwEncodeVia = regexp.MustCompile(`^if err := (\w+)\((\w+), (?:\[\]byte\((\w+)\)|(\w+))\); err != nil \{ return nil, err \}$`)
+	reLwRetBuf    = regexp.MustCompile(`^return (\w+)\.Bytes\(\), nil$`)
+	reLwHelperEnc = regexp.MustCompile(`^if err := (\w+)\.Encode\((\w+)\); err != nil \{ return err \}$`)
+)
+
+func gobParams(fd *ast.FuncDecl) []string {
+	var out []string
+	if fd.Recv != nil {
+		for _, f := range fd.Recv.List {
+			for _, n := range f.Names {
+				out = append(out, n.Name)
+			}
+		}
+	}
+	for _, f := range fd.Type.Params.List {
+		for _, n := range f.Names {
+			out = append(out, n.Name)
+		}
+	}
+	return out
+}
+
+// the statements of one encoder
+func (t *T) gobLeafWriteRows(fd *ast.FuncDecl, isHelperEnc bool) []string {
+	var rows []string
+	ps := gobParams(fd)
+	x := "" // the value encoded: the receiver, or the (only / last) parameter
+	if len(ps) > 0 {
+		x = ps[len(ps)-1]
+	}
+	enc0 := "" // helper: the encoder parameter
+	if isHelperEnc && len(ps) == 2 {
+		enc0 = ps[0]
+	}
+	buf, bufPtr, enc, local := "", false, "", ""
+	body := fd.Body.List
+	unrec := func(s ast.Stmt) {
+		rows = append(rows, fmt.Sprintf("LwUnrecognised %s %s", coqStr(t.src(s)), coqStr(t.pos(s))))
+	}
+	for i := 0; i < len(body); i++ {
+		s := body[i]
+		txt := t.src(s)
+		pos := coqStr(t.pos(s))
+		if isHelperEnc {
+			if m := reLwHelperEnc.FindStringSubmatch(txt); m != nil && m[1] == enc0 && m[2] == x {
+				rows = append(rows, "LwHelperEncode "+pos)
+				continue
+			}
+			if txt == "return nil" {
+				rows = append(rows, "LwHelperRetNil "+pos)
+				continue
+			}
+			unrec(s)
+			continue
+		}
+		if m := reLwRetEmpty1.FindStringSubmatch(txt); m != nil && m[1] == x {
+			rows = append(rows, fmt.Sprintf("LwRetEmptyIfLen0 [%s] %s", coqStr(""), pos))
+			continue
+		}
+		if m := reLwRetEmpty2.FindStringSubmatch(txt); m != nil && m[1] == x && m[3] == x {
+			rows = append(rows, fmt.Sprintf("LwRetEmptyIfLen0 [%s; %s] %s", coqStr(m[2]), coqStr(m[4]), pos))
+			continue
+		}
+		if m := reLwRetRaw.FindStringSubmatch(txt); m != nil && m[1] == x {
+			rows = append(rows, "LwRetRaw "+pos)
+			continue
+		}
+		if m := reLwBufVal.FindStringSubmatch(txt); m != nil && buf == "" {
+			buf, bufPtr = m[1], false
+			rows = append(rows, "LwBuffer "+pos)
+			continue
+		}
+		if m := reLwBufPtr.FindStringSubmatch(txt); m != nil && buf == "" {
+			buf, bufPtr = m[1], true
+			rows = append(rows, "LwBuffer "+pos)
+			continue
+		}
+		if m := reLwEncoder.FindStringSubmatch(txt); m != nil && enc == "" && m[3] == buf && buf != "" && (m[2] == "&") == !bufPtr {
+			enc = m[1]
+			rows = append(rows, "LwEncoder "+pos)
+			continue
+		}
+		if m := reLwMkKvs1.FindStringSubmatch(txt); m != nil && m[2] == x && local == "" && i+1 < len(body) {
+			if n := reLwMkKvs2.FindStringSubmatch(t.src(body[i+1])); n != nil && n[3] == x && n[4] == m[1] && n[5] == n[1] && n[6] == n[2] && n[8] == n[2] {
+				local = m[1]
+				rows = append(rows, fmt.Sprintf("LwMkKvs %s %s %s", coqStr(n[7]), coqStr(n[9]), pos))
+				i++
+				continue
+			}
+		}
+		if m := reLwMkKv.FindStringSubmatch(txt); m != nil && m[2] == x && m[4] == x && local == "" {
+			local = m[1]
+			rows = append(rows, fmt.Sprintf("LwMkKv %s %s %s", coqStr(m[3]), coqStr(m[5]), pos))
+			continue
+		}
+		if m := reLwMkBl1.FindStringSubmatch(txt); m != nil && local == "" && i+1 < len(body) {
+			if n := reLwMkBl2.FindStringSubmatch(t.src(body[i+1])); n != nil && n[2] == x && n[3] == m[1] && n[4] == m[1] && n[5] == n[1] {
+				local = m[1]
+				rows = append(rows, "LwMkByteList "+pos)
+				i++
+				continue
+			}
+		}
+		if m := reLwEncode.FindStringSubmatch(txt); m != nil && m[1] == enc && enc != "" {
+			src := ""
+			if m[2] == local && local != "" {
+				src = "local"
+			} else if m[2] == x {
+				src = "recv"
+			}
+			if src != "" {
+				rows = append(rows, fmt.Sprintf("LwEncode %s %s %s", coqStr("Encode"), coqStr(src), pos))
+				continue
+			}
+		}
+		if m := reLwEncodeVia.FindStringSubmatch(txt); m != nil && m[2] == enc && enc != "" && (m[3] == x || m[4] == x) {
+			rows = append(rows, fmt.Sprintf("LwEncode %s %s %s", coqStr(m[1]), coqStr("recv"), pos))
+			continue
+		}
+		if m := reLwRetBuf.FindStringSubmatch(txt); m != nil && m[1] == buf && buf != "" {
+			rows = append(rows, "LwRetBuffer "+pos)
+			continue
+		}
+		unrec(s)
+	}
+	return rows
+}
+
+var (
+	reLrRetNilIfEmpty = regexp.MustCompile(`^if len\((\w+)\) == 0 \{ return nil \}$`)
+	reLrStoreRaw      = regexp.MustCompile(`^\*(\w+) = (\w+)\((\w+)\)$`)
+	reLrDeclVar       = regexp.MustCompile(`^var (\w+) ([\w\[\]\.\*]+)$`)
+	reLrDeclMake0     = regexp.MustCompile(`^(\w+) := make\(([\w\[\]\.\*]+), 0\)$`)
+	reLrDeclLit       = regexp.MustCompile(`^(\w+) := ([\w\.]+)\{\}$`)
+	reLrDeclNew       = regexp.MustCompile(`^(\w+) := new\(([\w\.]+)\)$`)
+	reLrDecoder       = regexp.MustCompile(`^(\w+) := gob\.NewDecoder\(bytes\.NewReader\((\w+)\)\)$`)
+	reLrDecodeLocalIf = regexp.MustCompile(`^if err := gob\.NewDecoder\(bytes\.NewReader\((\w+)\)\)\.Decode\(&(\w+)\); err != nil \{ return err \}$`)
+	reLrDecodeLocalAs = regexp.MustCompile(`^err = gob\.NewDecoder\(bytes\.NewReader\((\w+)\)\)\.Decode\(&(\w+)\)$`)
+	reLrDecodeLocalDf = regexp.MustCompile(`^err := gob\.NewDecoder\(bytes\.NewReader\((\w+)\)\)\.Decode\(&(\w+)\)$`)
+	reLrTryRecv       = regexp.MustCompile(`^err := gob\.NewDecoder\(bytes\.NewReader\((\w+)\)\)\.Decode\((\w+)\)$`)
+	reLrStoreLocal    = regexp.MustCompile(`^\*(\w+) = (?:\w+\((\w+)\)|(\w+))$`)
+	reLrAppendKvs     = regexp.MustCompile(`^for _, (\w+) := range (\w+) \{ \*(\w+) = append\(\*(\w+), LangRefValue\{Ref: LangRef\((\w+)\.(\w+)\), Value: (\w+)\.(\w+)\}\) \}$`)
+	reLrStoreKv       = regexp.MustCompile(`^(\w+)\.(\w+) = (?:\w+\((\w+)\.(\w+)\)|(\w+)\.(\w+))$`)
+	reLrAppendStrs    = regexp.MustCompile(`^for _, (\w+) := range (\w+) \{ \*(\w+) = append\(\*(\w+), IRI\((\w+)\)\) \}$`)
+	reLrRetDecode     = regexp.MustCompile(`^return (\w+)\.Decode\((\w+)\)$`)
+	reLrMethodDecode  = regexp.MustCompile(`^err := (\w+)\.GobDecode\((\w+)\)$`)
+	reLrRetLocalErr   = regexp.MustCompile(`^return (\w+), err$`)
+)
+
+// the statements of one decoder
+func (t *T) gobLeafReadRows(fd *ast.FuncDecl) []string {
+	var rows []string
+	x, data := "", ""
+	isMethod := fd.Recv != nil
+	ps := gobParams(fd)
+	if isMethod && len(ps) == 2 {
+		x, data = ps[0], ps[1]
+	} else if !isMethod && len(ps) == 2 { // helper(p *T, data)
+		x, data = ps[0], ps[1]
+	} else if !isMethod && len(ps) == 1 { // helper(data) (T, error)
+		data = ps[0]
+	}
+	// Go type of the pointer parameter's element (helpers that decode into their parameter)
+	paramTy := ""
+	if !isMethod && len(ps) == 2 {
+		if st, ok := fd.Type.Params.List[0].Type.(*ast.StarExpr); ok {
+			paramTy = t.src(st.X)
+		}
+	}
+	local, dec := "", ""
+	localTypes := map[string]string{}
+	body := fd.Body.List
+	unrec := func(s ast.Stmt) {
+		rows = append(rows, fmt.Sprintf("LrUnrecognised %s %s", coqStr(t.src(s)), coqStr(t.pos(s))))
+	}
+	declare := func(how, name, ty string, pos string) {
+		local = name
+		localTypes[name] = ty
+		rows = append(rows, fmt.Sprintf("LrDeclare %s %s %s", coqStr(how), coqStr(ty), pos))
+	}
+	for i := 0; i < len(body); i++ {
+		s := body[i]
+		txt := t.src(s)
+		pos := coqStr(t.pos(s))
+		next := ""
+		if i+1 < len(body) {
+			next = t.src(body[i+1])
+		}
+		if m := reLrRetNilIfEmpty.FindStringSubmatch(txt); m != nil && m[1] == data {
+			rows = append(rows, "LrRetNilIfEmpty "+pos)
+			continue
+		}
+		if m := reLrStoreRaw.FindStringSubmatch(txt); m != nil && isMethod && m[1] == x && m[3] == data {
+			rows = append(rows, "LrStoreRaw "+pos)
+			continue
+		}
+		if m := reLrDeclVar.FindStringSubmatch(txt); m != nil {
+			declare("var", m[1], m[2], pos)
+			continue
+		}
+		if m := reLrDeclMake0.FindStringSubmatch(txt); m != nil {
+			declare("make0", m[1], m[2], pos)
+			continue
+		}
+		if m := reLrDeclLit.FindStringSubmatch(txt); m != nil {
+			declare("lit", m[1], m[2], pos)
+			continue
+		}
+		if m := reLrDeclNew.FindStringSubmatch(txt); m != nil {
+			declare("new", m[1], "*"+m[2], pos)
+			continue
+		}
+		if m := reLrDecoder.FindStringSubmatch(txt); m != nil && m[2] == data && dec == "" {
+			dec = m[1]
+			rows = append(rows, "LrDecoder "+pos)
+			continue
+		}
+		if m := reLrDecodeLocalIf.FindStringSubmatch(txt); m != nil && m[1] == data && m[2] == local && local != "" {
+			rows = append(rows, "LrDecodeLocal "+pos)
+			continue
+		}
+		if m := reLrDecodeLocalAs.FindStringSubmatch(txt); m != nil && m[1] == data && m[2] == local && local != "" && next == "if err != nil { return err }" {
+			rows = append(rows, "LrDecodeLocal "+pos)
+			i++
+			continue
+		}
+		if m := reLrTryRecv.FindStringSubmatch(txt); m != nil && isMethod && m[1] == data && m[2] == x && next == "if err == nil { return nil }" {
+			rows = append(rows, "LrTryDecodeRecv "+pos)
+			i++
+			continue
+		}
+		if m := reLrDecodeLocalDf.FindStringSubmatch(txt); m != nil && !isMethod && m[1] == data && m[2] == local && local != "" {
+			rows = append(rows, "LrDecodeLocalErr "+pos)
+			continue
+		}
+		if m := reLrAppendKvs.FindStringSubmatch(txt); m != nil && isMethod && m[2] == local && m[3] == x && m[4] == x && m[5] == m[1] && m[7] == m[1] {
+			rows = append(rows, fmt.Sprintf("LrAppendKvs %s %s %s", coqStr(m[6]), coqStr(m[8]), pos))
+			continue
+		}
+		if m := reLrAppendStrs.FindStringSubmatch(txt); m != nil && isMethod && m[2] == local && m[3] == x && m[4] == x && m[5] == m[1] {
+			rows = append(rows, "LrAppendStrs "+pos)
+			continue
+		}
+		if m := reLrStoreKv.FindStringSubmatch(txt); m != nil && isMethod && m[1] == x && local != "" {
+			src, part := m[3], m[4]
+			if src == "" {
+				src, part = m[5], m[6]
+			}
+			if src == local {
+				rows = append(rows, fmt.Sprintf("LrStoreKv %s %s %s", coqStr(m[2]), coqStr(part), pos))
+				continue
+			}
+		}
+		if m := reLrStoreLocal.FindStringSubmatch(txt); m != nil && isMethod && m[1] == x && local != "" && (m[2] == local || m[3] == local) {
+			rows = append(rows, "LrStoreLocal "+pos)
+			continue
+		}
+		if txt == "return nil" && isMethod {
+			rows = append(rows, "LrRetNil "+pos)
+			continue
+		}
+		if m := reLrRetDecode.FindStringSubmatch(txt); m != nil && !isMethod && m[1] == dec && dec != "" && m[2] == x && paramTy != "" {
+			rows = append(rows, fmt.Sprintf("LrRetDecodeParam %s %s", coqStr(paramTy), pos))
+			continue
+		}
+		if m := reLrMethodDecode.FindStringSubmatch(txt); m != nil && !isMethod && m[1] == local && local != "" && m[2] == data {
+			rows = append(rows, fmt.Sprintf("LrMethodDecode %s %s", coqStr(localTypes[local]+".GobDecode"), pos))
+			continue
+		}
+		if m := reLrRetLocalErr.FindStringSubmatch(txt); m != nil && !isMethod && m[1] == local && local != "" {
+			rows = append(rows, "LrRetLocalErr "+pos)
+			continue
+		}
+		unrec(s)
+	}
+	return rows
+}
+
+func (t *T) genGobCodecs(write bool) string {
+	var sb strings.Builder
+	list, ety, pfx, def := gobReadCodecs, "glr", "gr_codec_", "gobr_codecs"
+	if write {
+		list, ety, pfx, def = gobWriteCodecs, "glw", "gw_codec_", "gobw_codecs"
+	}
+	var names []string
+	for _, c := range list {
+		fd := t.gobFindFn(c)
+		var rows []string
+		pos := "?"
+		if fd == nil {
+			if write {
+				rows = []string{fmt.Sprintf("LwUnrecognised %s %s", coqStr("no function "+c.key()), coqStr("?"))}
+			} else {
+				rows = []string{fmt.Sprintf("LrUnrecognised %s %s", coqStr("no function "+c.key()), coqStr("?"))}
+			}
+		} else {
+			pos = t.pos(fd)
+			if write {
+				rows = t.gobLeafWriteRows(fd, c.name == "gobEncodeStringLikeType")
+			} else {
+				rows = t.gobLeafReadRows(fd)
+			}
+		}
+		id := strings.ReplaceAll(c.key(), ".", "_")
+		fmt.Fprintf(&sb, "(* %s %s *)\nDefinition %s%s : list %s := [\n  %s].\n", c.key(), pos, pfx, id, ety, strings.Join(rows, ";\n  "))
+		names = append(names, fmt.Sprintf("(%s, %s%s)", coqStr(c.key()), pfx, id))
+	}
+	fmt.Fprintf(&sb, "\nDefinition %s : list (bytes * list %s) := [\n  %s].\n\n", def, ety, strings.Join(names, ";\n  "))
+	return sb.String()
+}
+
+// ---------------------------------------------------------------- gobEncodeItem, statement group by statement group
+var (
+	reGeNil      = regexp.MustCompile(`^if IsNil\((\w+)\) \{ return \[\]byte\{\}, nil \}$`)
+	reGeIriVal   = regexp.MustCompile(`^if (\w+), ok := (\w+)\.\(IRI\); ok \{ return \[\]byte\((\w+)\), nil \}$`)
+	reGeIriPtr   = regexp.MustCompile(`^if (\w+), ok := (\w+)\.\(\*IRI\); ok \{ return \[\]byte\(\*(\w+)\), nil \}$`)
+	reGeBuf      = regexp.MustCompile(`^(\w+) := bytes\.Buffer\{\}$`)
+	reGeOn       = regexp.MustCompile(`^if (\w+)\((\w+)\) \{ err = (\w+)\((\w+), func\((\w+) \*(\w+)\) error \{ bytes, err := (.+?) (\w+)\.Write\(bytes\) return err \}\) \}$`)
+	reGeCallFn   = regexp.MustCompile(`^(\w+)\(\*(\w+)\)$`)
+	reGeCallMeth = regexp.MustCompile(`^(\w+)\.(\w+)\(\)$`)
+	reGeRet      = regexp.MustCompile(`^return (\w+)\.Bytes\(\), err$`)
+)
+
+func (t *T) genGobEncItem() string {
+	fd := t.gobFindFn(gobCodecFn{"", "gobEncodeItem"})
+	var rows []string
+	unrec := func(s ast.Stmt) {
+		rows = append(rows, fmt.Sprintf("GEUnrecognised %s %s", coqStr(t.src(s)), coqStr(t.pos(s))))
+	}
+	if fd == nil {
+		rows = append(rows, fmt.Sprintf("GEUnrecognised %s %s", coqStr("no function gobEncodeItem"), coqStr("?")))
+	} else {
+		it := ""
+		if ps := gobParams(fd); len(ps) == 1 {
+			it = ps[0]
+		}
+		buf := ""
+		body := fd.Body.List
+		for i := 0; i < len(body); i++ {
+			s := body[i]
+			txt := t.src(s)
+			pos := coqStr(t.pos(s))
+			if m := reGeNil.FindStringSubmatch(txt); m != nil && m[1] == it {
+				rows = append(rows, "GENilEmpty "+pos)
+				continue
+			}
+			// if IsIRI(it) { [value case] [pointer case] [return []byte{}, nil] }
+			if is, ok := s.(*ast.IfStmt); ok && is.Init == nil && is.Else == nil && t.src(is.Cond) == "IsIRI("+it+")" {
+				byv, byp, fb, good := false, false, false, true
+				for j, in := range is.Body.List {
+					itxt := t.src(in)
+					if m := reGeIriVal.FindStringSubmatch(itxt); m != nil && m[2] == it && m[3] == m[1] && !byv && !fb {
+						byv = true
+					} else if m := reGeIriPtr.FindStringSubmatch(itxt); m != nil && m[2] == it && m[3] == m[1] && !byp && !fb {
+						byp = true
+					} else if itxt == "return []byte{}, nil" && j == len(is.Body.List)-1 {
+						fb = true
+					} else {
+						good = false
+					}
+				}
+				if good {
+					rows = append(rows, fmt.Sprintf("GEIriBlock %s %s %s %s", cboolS(byv), cboolS(byp), cboolS(fb), pos))
+					continue
+				}
+			}
+			if m := reGeBuf.FindStringSubmatch(txt); m != nil && buf == "" && i+1 < len(body) && t.src(body[i+1]) == "var err error" {
+				buf = m[1]
+				rows = append(rows, "GEBuffer "+pos)
+				i++
+				continue
+			}
+			if m := reGeOn.FindStringSubmatch(txt); m != nil && m[2] == it && m[4] == it && m[8] == buf && buf != "" {
+				callee := ""
+				if c := reGeCallFn.FindStringSubmatch(m[7]); c != nil && c[2] == m[5] {
+					callee = c[1]
+				} else if c := reGeCallMeth.FindStringSubmatch(m[7]); c != nil && c[1] == m[5] {
+					callee = m[6] + "." + c[2]
+				}
+				if callee != "" {
+					rows = append(rows, fmt.Sprintf("GEOn %s %s %s %s", coqStr(m[1]), coqStr(m[3]), coqStr(callee), pos))
+					continue
+				}
+			}
+			// if IsObject(it) { switch it.GetType() { .. } }
+			if is, ok := s.(*ast.IfStmt); ok && is.Init == nil && is.Else == nil && len(is.Body.List) == 1 {
+				if c, ok := is.Cond.(*ast.CallExpr); ok && len(c.Args) == 1 && t.src(c.Args[0]) == it {
+					if sw, ok := is.Body.List[0].(*ast.SwitchStmt); ok && sw.Init == nil && t.src(sw.Tag) == it+".GetType()" {
+						rows = append(rows, fmt.Sprintf("GESwitch %s %s", coqStr(t.src(c.Fun)), pos))
+						continue
+					}
+				}
+			}
+			if m := reGeRet.FindStringSubmatch(txt); m != nil && m[1] == buf && buf != "" && i == len(body)-1 {
+				rows = append(rows, "GEReturn "+pos)
+				continue
+			}
+			unrec(s)
+		}
+	}
+	return fmt.Sprintf("(* the body of gobEncodeItem; the cases of its switch are Gen/Switches.sw_gobEncodeItem *)\nDefinition gob_enc_item : list genc_stmt := [\n  %s].\n\n", strings.Join(rows, ";\n  "))
+}
+
+// ---------------------------------------------------------------- what GetItemByType creates
+//
+// For every tag of the GetItemByType switch (Gen/Switches.sw_GetItemByType: "&Link", "ObjectNew", ..) and for
+// its default: the fields the expression sets.  `&T{Type: typ}` / `&T{}` are read off the composite literal;
+// a constructor call `F(typ)` is followed into the body of F: `if !(L.Contains(typ)) { typ = D }`,
+// `o := T{Type: typ}`, `o.F = NaturalLanguageValuesNew()`, `return &o`.
+func (t *T) typeListElems(name string) ([]string, bool) {
+	for _, f := range t.pkg.Syntax {
+		for _, d := range f.Decls {
+			gd, ok := d.(*ast.GenDecl)
+			if !ok || gd.Tok != token.VAR {
+				continue
+			}
+			for _, sp := range gd.Specs {
+				vs := sp.(*ast.ValueSpec)
+				for i, nm := range vs.Names {
+					if nm.Name != name || i >= len(vs.Values) {
+						continue
+					}
+					cl, ok := vs.Values[i].(*ast.CompositeLit)
+					if !ok {
+						return nil, false
+					}
+					var out []string
+					for _, e := range cl.Elts {
+						s, ok := t.constString(e)
+						if !ok {
+							return nil, false
+						}
+						out = append(out, s)
+					}
+					return out, true
+				}
+			}
+		}
+	}
+	return nil, false
+}
+
+var (
+	rePresetDefault = regexp.MustCompile(`^if !\((\w+)\.Contains\((\w+)\)\) \{ (\w+) = (\w+) \}$`)
+	rePresetLit     = regexp.MustCompile(`^(\w+) := (\w+)\{(?:Type: (\w+))?\}$`)
+	rePresetNlv     = regexp.MustCompile(`^(\w+)\.(\w+) = NaturalLanguageValuesNew\(\)$`)
+)
+
+func (t *T) presetOfLit(e ast.Expr, param string, pos string) ([]string, bool) {
+	u, ok := e.(*ast.UnaryExpr)
+	if !ok || u.Op != token.AND {
+		return nil, false
+	}
+	cl, ok := u.X.(*ast.CompositeLit)
+	if !ok {
+		return nil, false
+	}
+	var rows []string
+	for _, el := range cl.Elts {
+		kv, ok := el.(*ast.KeyValueExpr)
+		if !ok || t.src(kv.Key) != "Type" || t.src(kv.Value) != param {
+			return nil, false
+		}
+		rows = append(rows, "GPType "+pos)
+	}
+	return rows, true
+}
+
+func (t *T) genGobTyperPresets() string {
+	fd := t.gobFindFn(gobCodecFn{"", "GetItemByType"})
+	type entry struct{ tag, rows string }
+	var entries []entry
+	seen := map[string]bool{}
+	add := func(tag string, rows []string) {
+		if seen[tag] {
+			return
+		}
+		seen[tag] = true
+		entries = append(entries, entry{tag, "[" + strings.Join(rows, "; ") + "]"})
+	}
+	if fd != nil && len(gobParams(fd)) == 1 {
+		param := gobParams(fd)[0]
+		ast.Inspect(fd.Body, func(n ast.Node) bool {
+			rs, ok := n.(*ast.ReturnStmt)
+			if !ok || len(rs.Results) != 2 || t.src(rs.Results[1]) != "nil" {
+				return true
+			}
+			e := rs.Results[0]
+			pos := coqStr(t.pos(rs))
+			tag := caseTag(t, e)
+			if rows, ok := t.presetOfLit(e, param, pos); ok {
+				add(tag, rows)
+				return true
+			}
+			// constructor call F(typ)
+			if c, ok := e.(*ast.CallExpr); ok && len(c.Args) == 1 && t.src(c.Args[0]) == param {
+				if id, ok := c.Fun.(*ast.Ident); ok {
+					add(tag, t.presetOfCtor(id.Name))
+					return true
+				}
+			}
+			add(tag, []string{fmt.Sprintf("GPUnrecognised %s %s", coqStr(t.src(e)), pos)})
+			return true
+		})
+	}
+	var parts []string
+	for _, e := range entries {
+		parts = append(parts, fmt.Sprintf("(%s, %s)", coqStr(e.tag), e.rows))
+	}
+	return fmt.Sprintf("(* what each case of GetItemByType creates: (tag of Gen/Switches.sw_GetItemByType, the fields set) *)\nDefinition gob_typer_presets : list (bytes * list gpreset) := [\n  %s].\n\n", strings.Join(parts, ";\n  "))
+}
+
+// the tag Gen/Switches.v gives a returned expression: "&T" for &T{..}, the function name for a call
+func caseTag(t *T, e ast.Expr) string {
+	if u, ok := e.(*ast.UnaryExpr); ok && u.Op == token.AND {
+		if cl, ok := u.X.(*ast.CompositeLit); ok {
+			return "&" + t.src(cl.Type)
+		}
+	}
+	if c, ok := e.(*ast.CallExpr); ok {
+		return t.src(c.Fun)
+	}
+	return t.src(e)
+}
+
+func (t *T) presetOfCtor(name string) []string {
+	fd := t.gobFindFn(gobCodecFn{"", name})
+	if fd == nil || len(gobParams(fd)) != 1 {
+		return []string{fmt.Sprintf("GPUnrecognised %s %s", coqStr("no constructor "+name), coqStr("?"))}
+	}
+	param := gobParams(fd)[0]
+	var rows []string
+	v := ""
+	body := fd.Body.List
+	for i, s := range body {
+		txt := t.src(s)
+		pos := coqStr(t.pos(s))
+		if m := rePresetDefault.FindStringSubmatch(txt); m != nil && m[2] == param && m[3] == param {
+			if names, ok := t.typeListElems(m[1]); ok {
+				if dflt, ok := t.constStringOfIdent(m[4]); ok {
+					var ns []string
+					for _, n := range names {
+						ns = append(ns, coqStr(n))
+					}
+					rows = append(rows, fmt.Sprintf("GPTypeDefault %s [%s] %s %s", coqStr(m[1]), strings.Join(ns, "; "), coqStr(dflt), pos))
+					continue
+				}
+			}
+		}
+		if m := rePresetLit.FindStringSubmatch(txt); m != nil && v == "" && (m[3] == "" || m[3] == param) {
+			v = m[1]
+			if m[3] == param {
+				rows = append(rows, "GPType "+pos)
+			}
+			continue
+		}
+		if m := rePresetNlv.FindStringSubmatch(txt); m != nil && m[1] == v && v != "" {
+			rows = append(rows, fmt.Sprintf("GPNlvNew F_%s %s", m[2], pos))
+			continue
+		}
+		if txt == "return &"+v && v != "" && i == len(body)-1 {
+			continue
+		}
+		rows = append(rows, fmt.Sprintf("GPUnrecognised %s %s", coqStr(txt), pos))
+	}
+	return rows
+}
+
+// the string value of a package-level constant
+func (t *T) constStringOfIdent(name string) (string, bool) {
+	obj := t.pkg.Types.Scope().Lookup(name)
+	c, ok := obj.(*types.Const)
+	if !ok {
+		return "", false
+	}
+	s := c.Val().ExactString()
+	if len(s) >= 2 && s[0] == '"' {
+		var out string
+		if _, err := fmt.Sscanf(s, "%q", &out); err == nil {
+			return out, true
+		}
+	}
+	return "", false
 }
